@@ -824,7 +824,7 @@ func (fr *Frame) execReturn(x *ssa.Return) {
 	var vals []Val
 	for _, r := range x.Results {
 		v := fr.get(r)
-		if sv, ok := v.(SliceV); ok && !fr.top {
+		if sv, ok := v.(SliceV); ok && (!fr.top || multiReturn(fr.fn)) {
 			// a slice of a callee-local array escapes: snapshot its contents
 			if t, ok := fr.term(sv); ok {
 				v = TV{t, sv.Typ}
@@ -894,4 +894,16 @@ func cellKey(p PtrV) string {
 		}
 	}
 	return k
+}
+
+func multiReturn(f *ssa.Function) bool {
+	n := 0
+	for _, b := range f.Blocks {
+		for _, in := range b.Instrs {
+			if _, ok := in.(*ssa.Return); ok {
+				n++
+			}
+		}
+	}
+	return n > 1
 }
